@@ -19,7 +19,7 @@ theorem C08_crash (c : Cfg) (started : Bool) (s : State) (h : s.loop ≠ .return
   · simp [afterDeath]
   · simp only [Bool.not_true, Bool.false_eq_true, if_false]
     have hl : (s.loop != .returned) = true := by simpa using h
-    cases ho : overall c s <;> simp [afterDeath, hl]
+    cases ho : reported c s <;> simp [afterDeath, hl]
 
 /-- **C08 (live).** While the run is in progress (the scheduler has started and not returned) the
     reported overall status is never `succeeded` and never `not started`. -/
@@ -27,18 +27,18 @@ theorem C08_live (c : Cfg) (s : State) (h : s.loop ≠ .returned) :
     agentStatus c true s ≠ .success ∧ agentStatus c true s ≠ .none := by
   unfold agentStatus
   have hl : (s.loop != .returned) = true := by simpa using h
-  cases ho : overall c s <;> simp [hl]
+  cases ho : reported c s <;> simp [hl]
 
 /-- **C08 (final).** Once `Schedule` has returned, what the agent persists (and what is reported from
-    then on: `afterDeath` leaves it alone unless it is `running`) is the scheduler's own verdict, whose
-    truthfulness is C04's subject. -/
+    then on: `afterDeath` leaves it alone unless it is `running`) is the scheduler's own verdict
+    (`reported` = the outcome recorded when the last step finished), whose truthfulness is C04's subject. -/
 theorem C08_final (c : Cfg) (s : State) (h : s.loop = .returned) :
-    agentStatus c true s = overall c s ∧
-    (overall c s ≠ .running → afterDeath (agentStatus c true s) = overall c s) := by
+    agentStatus c true s = reported c s ∧
+    (reported c s ≠ .running → afterDeath (agentStatus c true s) = reported c s) := by
   unfold agentStatus
   simp only [Bool.not_true, Bool.false_eq_true, if_false, h, bne_self_eq_false, Bool.and_false]
   refine ⟨trivial, fun hr => ?_⟩
-  cases ho : overall c s <;> simp_all [afterDeath]
+  cases ho : reported c s <;> simp_all [afterDeath]
 
 /-- the chain a → b of the pinned tree right after `a` finished: nothing running, no error -/
 def chain : Cfg := { n := 2, node := fun i => if i = 1 then { deps := [0] } else {} }
